@@ -26,7 +26,7 @@
    plain_op: no bounds operation, and `dim` only for classes whose default bounds do not
              depend on the dimension. *)
 From Coq Require Import List ZArith Bool QArith Reals.
-From GS Require Import Num Loops Formulas Formulas_gen C14_Model C14_Proofs C14_Inst C14_Tie.
+From GS Require Import Num Loops Formulas Formulas_gen C14_Model C14_Proofs C14_Inst C14_Tie C14_Derived.
 Import ListNotations.
 Close Scope R_scope. Close Scope Q_scope.
 
@@ -250,3 +250,25 @@ Theorem C14_constructor_integral_scale_canonical :
     construct_int O c a ls = Ok s -> WF O s /\ InB O c s /\ construct O c (args_of s) = Ok s.
 Proof. exact @construct_int_canonical. Qed.
 Print Assumptions C14_constructor_integral_scale_canonical.
+
+(* 12. hidden derived state: the Hankel transform object model._sft (ndim = the dimension it was built
+   for; used by spectrum / spectral_density of the classes without an analytic spectral density).  DState =
+   primary parameters + sft_ndim; dconstruct / dstep: only the constructor and the `dim` assignment
+   (tools.set_dim) rebuild it.  After EVERY history the derived component is the function of the present
+   primary parameters that a fresh constructor call computes. *)
+Theorem C14_hidden_state_coherent :
+  forall (T : Type) (O : NumOps T),
+    nltb O (n0 O) (n1 O) = true -> (forall x : T, nabs O (nabs O x) = nabs O x) ->
+  forall (c : Cls) (a : Args) (ops : list Op) (d0 d : DState),
+    dconstruct O c a = Ok d0 -> drun O c d0 ops = Ok d -> WF O (prim d) /\ sft_ndim d = dim (prim d).
+Proof. exact @hidden_state_coherent. Qed.
+Print Assumptions C14_hidden_state_coherent.
+
+Theorem C14_hidden_state_equals_fresh :
+  forall (T : Type) (O : NumOps T),
+    nltb O (n0 O) (n1 O) = true -> (forall x : T, nabs O (nabs O x) = nabs O x) ->
+  forall (c : Cls) (a : Args) (ops : list Op) (d0 d : DState),
+    dconstruct O c a = Ok d0 -> drun O c d0 ops = Ok d -> forallb (keeps_in_bounds c) ops = true ->
+    dconstruct O c (args_of (prim d)) = Ok d.
+Proof. exact @hidden_state_equals_fresh. Qed.
+Print Assumptions C14_hidden_state_equals_fresh.
